@@ -30,7 +30,7 @@ theorem seg_length {s s' : Src} (h : Adv s s') : (seg s s').length = s'.off - s.
 /-- postcondition of one decoder run started in `s` -/
 def Post (g : Bool) (R : α → Bytes → Prop) (s : St) : Res (α × St) → Prop
   | .panic => False
-  | .err _ => True
+  | .err _ _ => True
   | .ok (a, s') => Adv s.src s'.src ∧ (s.lossy = true → s'.lossy = true) ∧
         ((g = true → s'.lossy = false) → R a (seg s.src s'.src))
 
@@ -45,7 +45,7 @@ theorem Spec.mono {g} {d : Dec α} {R R' : α → Bytes → Prop} (h : Spec g d 
   have := h s w h63
   cases hd : d s with
   | panic => rw [hd] at this; exact this
-  | err e => trivial
+  | err e _ => trivial
   | ok r =>
     obtain ⟨a, s'⟩ := r
     rw [hd] at this
@@ -69,7 +69,7 @@ theorem Spec.bind {g} {d : Dec α} {f : α → Dec β} {R1 : α → Bytes → Pr
   have h1 := hd s w h63
   cases hds : d s with
   | panic => rw [hds] at h1; exact h1.elim
-  | err e => trivial
+  | err e _ => trivial
   | ok r =>
     obtain ⟨a, s1⟩ := r
     rw [hds] at h1
@@ -78,7 +78,7 @@ theorem Spec.bind {g} {d : Dec α} {f : α → Dec β} {R1 : α → Bytes → Pr
     simp only
     cases hfs : f a s1 with
     | panic => rw [hfs] at h2; exact h2.elim
-    | err e => trivial
+    | err e _ => trivial
     | ok r2 =>
       obtain ⟨c, s2⟩ := r2
       rw [hfs] at h2
@@ -386,6 +386,12 @@ theorem spec_varBytesLax_safe : Spec false varBytesLax (fun _ _ => True) := by
 
 theorem lt64 (k : Nat) (h : k ≤ 64 := by omega) : k < two64 := by unfold two64; omega
 
+theorem Spec.allocEv {g} (n : Nat) {R : Unit → Bytes → Prop} (h : R () []) : Spec g (allocEv n) R := by
+  intro s w _
+  refine ⟨Adv.refl w, id, fun _ => ?_⟩
+  rw [seg_self]
+  exact h
+
 theorem spec_repeatD {g} {body : Dec α} {e : α → Bytes} {P : α → Prop}
     (hb : Spec g body (fun x w => w = e x ∧ P x)) (n : Nat) :
     Spec g (repeatD n body) (fun l w => w = (l.map e).flatten ∧ l.length = n ∧ ∀ x ∈ l, P x) := by
@@ -395,10 +401,14 @@ theorem spec_repeatD {g} {body : Dec α} {e : α → Bytes} {P : α → Prop}
     unfold repeatD
     apply Spec.bind hb
     intro x
+    apply Spec.bind (R1 := fun _ w => w = [])
+    · exact Spec.allocEv 1 rfl
+    intro _
     apply Spec.bind ih
     intro xs
     apply Spec.pure
-    intro w1 h1 w2 h2
+    intro w1 h1 w0 h0 w2 h2
+    subst h0
     obtain ⟨rfl, hl, hp⟩ := h1
     obtain ⟨rfl, hx⟩ := h2
     refine ⟨by simp, by simp; omega, ?_⟩
@@ -451,75 +461,6 @@ theorem spec_decVerack : Spec true decVerack (fun m w => w = encode m) := by
 theorem spec_decAddrReq : Spec true decAddrReq (fun m w => w = encode m) := by
   unfold decAddrReq
   exact Spec.pure _ rfl
-
-theorem spec_decHeadersReq : Spec true decHeadersReq (fun m w => w = encode m) := by
-  unfold decHeadersReq
-  apply Spec.bind spec_u8; intro n
-  apply Spec.bind (spec_fixed 32 (lt64 32)); intro s
-  apply Spec.bind (spec_fixed 32 (lt64 32)); intro e
-  apply Spec.pure
-  intro w1 h1 w2 h2 w3 h3
-  simp [encode, h1.1, h2.1, h3.1]
-
-theorem spec_decBlocksReq : Spec true decBlocksReq (fun m w => w = encode m) := by
-  unfold decBlocksReq
-  apply Spec.bind spec_u8; intro n
-  apply Spec.bind (spec_fixed 32 (lt64 32)); intro s
-  apply Spec.bind (spec_fixed 32 (lt64 32)); intro e
-  apply Spec.pure
-  intro w1 h1 w2 h2 w3 h3
-  simp [encode, h1.1, h2.1, h3.1]
-
-theorem spec_decDataReq : Spec true decDataReq (fun m w => w = encode m) := by
-  unfold decDataReq
-  apply Spec.bind spec_u8; intro n
-  apply Spec.bind (spec_fixed 32 (lt64 32)); intro s
-  apply Spec.pure
-  intro w1 h1 w2 h2
-  simp [encode, h1.1, h2.1]
-
-theorem spec_decNotFound : Spec true decNotFound (fun m w => w = encode m) := by
-  unfold decNotFound
-  apply Spec.bind (spec_fixed 32 (lt64 32)); intro s
-  apply Spec.pure
-  intro w1 h1
-  simp [encode, h1.1]
-
-theorem spec_decFindNode : Spec true decFindNode (fun m w => w = encode m) := by
-  unfold decFindNode
-  apply Spec.bind (spec_fixed 20 (lt64 20)); intro s
-  apply Spec.pure
-  intro w1 h1
-  simp [encode, h1.1]
-
-theorem spec_decHeaders : Spec true decHeaders (fun m w => m = .opaque cHeaders ∨ w = encode m) := by
-  unfold decHeaders
-  apply Spec.bind (spec_uN 4 (lt64 4)); intro n
-  apply Spec.ite
-  · intro _; apply Spec.pure; intros; left; rfl
-  · intro hn
-    apply Spec.pure
-    intro w1 h1
-    right
-    have : n = 0 := by simpa using hn
-    subst this
-    simp [encode, h1.1]
-
-theorem spec_decMembersReq : Spec true decMembersReq (fun m w => m = .opaque cGetMembers ∨ w = encode m) := by
-  unfold decMembersReq
-  apply Spec.bind (spec_fixed 20 (lt64 20)); intro f
-  apply Spec.bind (spec_fixed 20 (lt64 20)); intro t
-  apply Spec.bind (spec_uN 4 (lt64 4)); intro n
-  apply Spec.ite
-  · intro _; apply Spec.pure; intros; left; rfl
-  · intro hn
-    apply Spec.pure
-    intro w1 h1 w2 h2 w3 h3
-    right
-    have : n = 0 := by simpa using hn
-    subst this
-    simp [encode, h1.1, h2.1, h3.1]
-
 
 theorem Spec.val {g} {d : Dec α} {Q : α → Prop} {s : St} {a : α} {s' : St}
     (hq : Spec g d (fun a _ => Q a)) (hg : g = false) (w : s.src.wf) (h63 : s.src.bs.length < 2 ^ 63)
@@ -609,7 +550,7 @@ theorem nextBytes_at_end (s : Src) (n : Nat) (hn : 0 < n) (_hn2 : n < two64) (w 
   rfl
 
 theorem uN_at_end (k : Nat) (hk : 0 < k) (hk2 : k < two64) (s : St) (w : s.src.wf) (he : s.src.off = s.src.bs.length) :
-    uN k s = .err .ueof := by
+    uN k s = .err .ueof s := by
   show Dec.bind (nUint k) _ s = _
   unfold Dec.bind nUint liftO nextUintN
   rw [nextBytes_at_end s.src k hk hk2 w he]
@@ -631,7 +572,7 @@ theorem spec_bytes_then {g} (n k : Nat) (hn : n < two64) (hk : 0 < k) (hk2 : k <
   cases e with
   | true =>
     obtain ⟨ho, hbs⟩ := nextBytes_eof_off _ _ _ _ hb
-    have : (uN k >>= fun p => f (d, true) p) { s with src := s1 } = .err .ueof := by
+    have : (uN k >>= fun p => f (d, true) p) { s with src := s1 } = .err .ueof { s with src := s1 } := by
       show Dec.bind (uN k) _ _ = _
       unfold Dec.bind
       rw [uN_at_end k hk hk2 _ (adv.wf w) (by simp only; rw [ho, hbs])]
@@ -642,7 +583,7 @@ theorem spec_bytes_then {g} (n k : Nat) (hn : n < two64) (hk : 0 < k) (hk2 : k <
     have hp := h d h1 { s with src := s1 } (adv.wf w) (by show s1.bs.length < _; rw [adv.1]; exact h63)
     cases hr : (uN k >>= fun p => f (d, false) p) { s with src := s1 } with
     | panic => rw [hr] at hp; exact hp.elim
-    | err e => trivial
+    | err e _ => trivial
     | ok r =>
       obtain ⟨c, s2⟩ := r
       rw [hr] at hp
@@ -708,14 +649,13 @@ theorem loopBound64_of_le (count rem : Nat) (h : ¬ count > rem) (hr : rem < 2 ^
   unfold loopBound64
   rw [if_pos (by omega)]
 
-theorem spec_decAddr_sound : Spec true (decAddr .sound) (fun m w => w = encode m) := by
+theorem spec_decAddr : Spec true decAddr (fun m w => w = encode m) := by
   unfold decAddr
   apply Spec.bind (spec_uN 8 (lt64 8)); intro count
   apply Spec.bindQ (Q := fun rem : Nat => rem < 2 ^ 63) (R1 := fun _ w => w = [])
   · exact spec_remaining.mono (fun _ _ h => h.2)
   · exact spec_remaining.mono (fun _ _ h => h.1)
   intro rem hrem
-  simp only [beq_self_eq_true, Bool.true_and, decide_eq_true_eq]
   apply Spec.ite
   · intro _; exact Spec.fail _
   intro hle
@@ -750,14 +690,13 @@ theorem spec_addrLoop (n : Nat) :
 
 /-- unconditional: the number of loop iterations (= entries appended before the cut) is paid for by payload bytes -/
 theorem spec_decAddr_alloc :
-    Spec false (decAddr .sound) (fun m w => ∃ l n, m = .addr l ∧ l.length ≤ n ∧ 8 + 44 * n = w.length) := by
+    Spec false decAddr (fun m w => ∃ l n, m = Msg.addr l ∧ l.length ≤ n ∧ 8 + 44 * n = w.length) := by
   unfold decAddr
   apply Spec.bind (spec_uN 8 (lt64 8)); intro count
   apply Spec.bindQ (Q := fun rem : Nat => rem < 2 ^ 63) (R1 := fun _ w => w = [])
   · exact spec_remaining.mono (fun _ _ h => h.2)
   · exact spec_remaining.mono (fun _ _ h => h.1)
   intro rem hrem
-  simp only [beq_self_eq_true, Bool.true_and, decide_eq_true_eq]
   apply Spec.ite
   · intro _; exact Spec.fail _
   intro hle
